@@ -18,7 +18,7 @@ EXHAUSTIVE = {'thorough': True}
 
 CLS = {1: 'SimpleEventSequence', 2: 'Melody', 3: 'DrumTrack', 4: 'ChordProgression', 5: 'LeadSheet',
        6: 'PianorollSequence', 7: 'Performance'}
-NO_EVENT, NOTE_OFF = -1, -2           # literal values of the property text ("-2..127")
+NO_EVENT, NOTE_OFF = -2, -1           # constants.MELODY_NO_EVENT, MELODY_NOTE_OFF (checked in gen_coq)
 MEL_LO, MEL_HI = -2, 127
 # opcodes shared with coq/Run/C17.v
 APPEND, SETLEN, SLICE, INCRES, DEEPCOPY, REINIT, RESET, TRUNCATE = 1, 2, 3, 4, 5, 6, 7, 8
@@ -62,6 +62,8 @@ def gen_coq():
     s += G.defz('MAX_MELODY_EVENT', melodies_lib.MAX_MELODY_EVENT)
     s += G.defz('MELODY_NO_EVENT', melodies_lib.MELODY_NO_EVENT)
     s += G.defz('MELODY_NOTE_OFF', melodies_lib.MELODY_NOTE_OFF)
+    if (melodies_lib.MELODY_NO_EVENT, melodies_lib.MELODY_NOTE_OFF) != (NO_EVENT, NOTE_OFF):
+        raise ValueError('the oracle\'s NO_EVENT / NOTE_OFF differ from melodies_lib')
     s += G.defz('MIN_MIDI_PITCH', drums_lib.MIN_MIDI_PITCH)
     s += G.defz('MAX_MIDI_PITCH', drums_lib.MAX_MIDI_PITCH)
     s += G.defz('PERF_MIN_PITCH', performance_lib.MIN_MIDI_PITCH)
@@ -347,11 +349,15 @@ def _sustained(mel):
     return False
 
 
-def _check_state(cls, ob):
+def _check_exc(ob):
     names = ['outcome', 'iter', 'start_step', 'end_step', 'len', 'steps', 'index', 'x1', 'x2', 'x3', 'x4']
     for k, v in enumerate(ob[1:], 1):
         if _is_exc(v):
             return {'kind': 'observation-raises', 'what': names[k], 'exc': v[1]}
+    return None
+
+
+def _check_state(cls, ob):
     _, evs, start, end, n, steps, probe = ob[:7]
     if n != len(evs):
         return {'kind': 'len-iter-disagree', 'len': n, 'iterated': len(evs)}
@@ -525,7 +531,10 @@ def oracle(case, io):
             if ob[1:] != prev[1:]:
                 return dict(kind='rejected-op-changed-the-object', **where)
             continue
-        bad = _check_state(cls, ob) or _check_op(cls, op, prev, ob, pad)
+        bad = _check_exc(ob)
+        if not bad and op[0] == SETLEN:      # name the set_length defect before the invariant it breaks
+            bad = _check_op(cls, op, prev, ob, pad)
+        bad = bad or _check_state(cls, ob) or _check_op(cls, op, prev, ob, pad)
         if bad:
             bad.update(where)
             return bad
@@ -561,7 +570,7 @@ def _event(cls, rng):
     if cls == 1:
         return rng.randint(-3, 9)
     if cls == 2:
-        return rng.choice([-2, -1, -1, 60, 62, 0, 127, 64]) if rng.random() < 0.93 else rng.choice([-3, 128, 200])
+        return rng.choice([-1, -2, -2, 60, 62, 0, 127, 64]) if rng.random() < 0.93 else rng.choice([-3, 128, 200])
     if cls == 3:
         if rng.random() < 0.06:
             return sorted(set([rng.choice([-1, 128]), 36]))
@@ -705,14 +714,14 @@ def _alphabet(cls):
     if cls == 1:
         return [3], [REINIT, 0, [1, [5, 6, 7]], 2, 16, 4], [[APPEND, 8], [APPEND, 9]] + common + [[DEEPCOPY]]
     if cls == 2:
-        return [], [REINIT, 0, [1, [-1, 60, -1]], 2, 16, 4], [[APPEND, 62], [APPEND, -2]] + common + [[DEEPCOPY]]
+        return [], [REINIT, 0, [1, [-2, 60, -2]], 2, 16, 4], [[APPEND, 62], [APPEND, -1]] + common + [[DEEPCOPY]]
     if cls == 3:
         return [], [REINIT, 0, [1, [[36], [], [38, 42]]], 2, 16, 4], [[APPEND, [36]], [APPEND, []]] + common + [[DEEPCOPY]]
     if cls == 4:
         return [], [REINIT, 0, [1, [1, 0, 2]], 2, 16, 4], [[APPEND, 3], [APPEND, 0]] + common + [[DEEPCOPY]]
     if cls == 5:
-        return [], [REINIT, [-1, 60, -1], 2, 16, 4, [1, 0, 2], 2, 16, 4], \
-            [[APPEND, 62, 3], [APPEND, -2, 0], [SETLEN, 4], [SETLEN, 1], [SETLEN, 0],
+        return [], [REINIT, [-2, 60, -2], 2, 16, 4, [1, 0, 2], 2, 16, 4], \
+            [[APPEND, 62, 3], [APPEND, -1, 0], [SETLEN, 4], [SETLEN, 1], [SETLEN, 0],
              [SLICE, [-2], []], [SLICE, [1], [-1]], [SLICE, [], [2]], [INCRES, 2], [DEEPCOPY]]
     if cls == 6:
         return [2, 60, 72], [REINIT, [[60], [], [64, 72]], 2, 60, 72, 1], \
